@@ -201,25 +201,29 @@ func TestC09Blocks(t *testing.T) {
 			nontrivial = true
 		}
 		// future slots: signed by the owner of that slot, k slots ahead of the clock. The verdict depends on the wall
-		// clock at the moment of the call; a clock that is stepped (seen on freshly restored sandboxes) can make one
-		// evaluation disagree, so a disagreement has to repeat on three fresh evaluations to count.
+		// clock at the moment of the call, and the code's slot index of an instant flips 1 ms after the full second
+		// ((ms-1)/interval): an evaluation is judged only if the clock read before and after the call lies in the same
+		// second and between 5 ms and 990 ms into it, where every reading of "slot of now" agrees. A disagreement has
+		// to repeat on three such evaluations (a stepped clock was seen on freshly restored sandboxes).
 		if regime == "genesis" {
 			ahead := rapid.IntRange(0, 4).Draw(t, "ahead")
 			disagreements, evaluated := 0, 0
 			var last string
-			for attempt := 0; attempt < 3; attempt++ {
+			inside := func(x time.Time) bool { f := x.UnixNano() % 1e9; return f >= 5e6 && f <= 990e6 }
+			for attempt := 0; attempt < 12 && evaluated < 3; attempt++ {
 				now := time.Now()
-				fts := (now.UnixNano()/1e9+int64(ahead))*1e9 + 500e6
-				if dist := (fts - now.UnixNano()) % 1e9; dist <= 150e6 || dist >= 850e6 { // too close to a slot boundary decision
+				if !inside(now) {
+					time.Sleep(7 * time.Millisecond)
 					continue
 				}
+				fts := (now.UnixNano()/1e9+int64(ahead))*1e9 + 500e6
 				fo := slot.NewFromUnixNano(fts).NextBpIndex(uint16(n))
 				fb := mk(order[fo], fts)
 				curIdx := now.UnixNano() / 1e9
 				want := fts/1e9 < curIdx+2
 				got := d.VerifyTimestamp(fb)
-				// re-read the clock: not judged if a second boundary was crossed meanwhile
-				if time.Now().UnixNano()/1e9 != curIdx {
+				// re-read the clock: not judged if a second boundary was crossed (or nearly) meanwhile
+				if after := time.Now(); after.UnixNano()/1e9 != curIdx || !inside(after) {
 					continue
 				}
 				evaluated++
@@ -228,6 +232,7 @@ func TestC09Blocks(t *testing.T) {
 				}
 				disagreements++
 				last = fmt.Sprintf("a block %d slots ahead of the local clock: timestamp accepted=%v, expected %v", ahead, got, want)
+				time.Sleep(3 * time.Millisecond)
 			}
 			if disagreements >= 3 {
 				t.Fatalf("%s (three evaluations in a row)", last)
